@@ -68,10 +68,29 @@ fn strat(topos: Vec<Topology>, max_prefix: usize, max_burst: usize, max_steps: u
 			3 => (1_000u32..30_000, 2u8..40).prop_map(|(start, pct)| Traj::Falling { start, pct }),
 			2 => (253u32..2_000, 2_000u32..40_000, 0u8..30, 1u8..12).prop_map(|(base, peak, at, len)| Traj::Spike { base, peak, at, len }),
 		],
+		// one case in six is a race at the expiry boundary with generated parameters: several same-expiry HTLCs in
+		// one direction, the recipient's commitment confirms, the recipient learns some preimages shortly before
+		// the expiry and its claims wait in the mempool, the sender's (aggregated) timeout claim appears at the
+		// expiry, then the waiting claims confirm together
+		(proptest::bool::weighted(0.17), any::<bool>(), 3usize..7, 1usize..4, -3i8..0, 0i8..2, 30u8..60, proptest::collection::vec(any::<u16>(), 4)),
 	)
-		.prop_map(|(mut spec, styles, prefix, burst, settle, chan, close, steps, max_delay, tail_reverse, traj)| {
+		.prop_map(|(mut spec, styles, prefix, burst, settle, chan, close, steps, max_delay, tail_reverse, traj, (race, dir, n_sends, n_claims, before, at, race_delay, picks))| {
 			spec.deferred = false;
 			spec.node_styles = styles;
+			if race {
+				let route = if dir { 0u16 } else { 32768 };
+				let mut ops: Vec<Op> = (0..n_sends).map(|i| Op::Send { route, amt: Amt::Frac(1500 + 700 * i as u16) }).collect();
+				ops.push(Op::Pump);
+				ops.push(Op::Pump);
+				let mut rsteps = vec![
+					Step { advance: Some(before), pre: picks.iter().take(n_claims.min(n_sends - 1)).map(|p| Pre::Claim { pay: *p }).collect(), incl: Incl::Overdue, pump: false },
+					Step { advance: Some(at), pre: vec![], incl: Incl::Overdue, pump: false },
+					Step { advance: None, pre: vec![], incl: Incl::All, pump: true },
+				];
+				rsteps.extend(steps.into_iter().take(6));
+				// the recipient's commitment is the one that confirms (route 0 = from the funder's side)
+				return Case { spec, ops, chan, close: Close::MineHolder { of_funder: !dir, cut_link: true }, steps: rsteps, max_delay: race_delay, tail_reverse, traj };
+			}
 			let mut ops = prefix;
 			ops.extend(burst);
 			ops.extend(settle);
